@@ -285,6 +285,20 @@ def timerElapsed (r : Nat) : Int :=
   if r ≤ Gen.val_QuickTimeoutThreshold then (r : Int) * Gen.val_QuickTimeout
   else (Gen.val_QuickTimeoutThreshold : Int) * Gen.val_QuickTimeout + ((r : Int) - Gen.val_QuickTimeoutThreshold) * Gen.val_SlowTimeout
 
+theorem timerElapsed_nonneg (r : Nat) : 0 ≤ timerElapsed r := by
+  unfold timerElapsed
+  simp only [g_quickThr, g_quick, g_slow]
+  by_cases h : r ≤ 8
+  · simp only [h, if_true]; omega
+  · simp only [h, if_false]; omega
+
+theorem timerElapsed_pos (r : Nat) (hr : 1 ≤ r) : 0 < timerElapsed r := by
+  unfold timerElapsed
+  simp only [g_quickThr, g_quick, g_slow]
+  by_cases h : r ≤ 8
+  · simp only [h, if_true]; omega
+  · simp only [h, if_false]; omega
+
 /-- a message of round `r ≥ 2` sent at or after the deadline of round `r − 1` (any non-negative base delay: a third /
     two thirds of the slot for the slot-aligned roles, the instance start for the proposer) is estimated at round ≥ r
     by the validator, hence inside its window `[1, estimate + 1]`, with one round to spare -/
